@@ -215,11 +215,11 @@ def run_asciimap(rep, tier, seed):
 # part 2: blueprint documents
 # ------------------------------------------------------------------------------------------------------------
 RTOL = 1e-9  # compositions and dimensions are a handful of double operations away from the input numbers
-FAMILIES = ("links", "comp", "stack", "pins", "core")
+FAMILIES = ("links", "comp", "stack", "pins", "core", "duct")
 # every edit of Blueprint.tla must occur in the emitted documents (non-vacuity; TLC's -coverage is not usable on this
 # module: its cost model inlines the nested operators and does not finish)
 EDITS = ("SetLink", "SetNum", "AddBond", "DropComp", "SwapComps", "RenameComp", "SetShape", "SetTemps", "SetIsotopics", "SetMod", "ShortMod",
-         "DupIsotopics", "SwapBlocks", "SwapList", "Shorten", "Lengthen", "Respecify", "RenameAsm", "RenameBlock", "SetHeight",
+         "DupIsotopics", "SetModPair", "LongMod", "SetXs", "DuctEdit", "PinCount", "SwapDucts", "DropDuct", "SwapBlocks", "SwapList", "Shorten", "Lengthen", "Respecify", "RenameAsm", "RenameBlock", "SetHeight",
          "PlaceStack", "PlacePin", "PinMode", "PinMult", "PinIds", "PinGridName", "Place", "Unplace", "DupGrid", "ListTwice")
 
 
@@ -333,7 +333,7 @@ def check_document(rep, p, counters, twice):
                           dict(payload, first=proj, second=proj2))
 
 
-CAP = {"quick": 300, "thorough": 2500}  # documents built per family (all of them when fewer are emitted)
+CAP = {"quick": 250, "thorough": 2500}  # documents built per family (all of them when fewer are emitted)
 
 
 # the composition family needs cooperating choices (override x material x modification x axial index): few documents, all built
@@ -678,6 +678,23 @@ def selftest():
         exec(src, ns)  # noqa: S102
         return P(material.Material, "adjustMassFrac", ns["adjustMassFrac"])
 
+    # -- second seeding round: one-line changes of the real source text ------------------------------------------------
+    def source_mutant(owner, name, old, new):
+        """the method `owner.name` re-compiled from its own source with `old` replaced by `new` (asserts the text is there)"""
+        import inspect
+        import sys
+        import textwrap
+
+        fn = owner.__dict__[name]
+        fn = getattr(fn, "__func__", fn)
+        src = textwrap.dedent(inspect.getsource(fn))
+        assert src.count(old) == 1, "%s.%s changed: update the mutant" % (owner.__name__, name)
+        ns = dict(vars(sys.modules[owner.__module__]))
+        exec(src.replace(old, new), ns)  # noqa: S102
+        return P(owner, name, ns[name])
+
+    from armi.reactor import blocks as blocksModule
+
     CB, AB, BB = componentBlueprint.ComponentBlueprint, assemblyBlueprint.AssemblyBlueprint, blockBlueprint.BlockBlueprint
     mutants = [
         ("dimension links: `id` links resolve to another component", lambda: P(Component, "resolveLinkedDims", links_first_component)),
@@ -688,6 +705,17 @@ def selftest():
         ("map writer drops the last entry after an inner placeholder, read-back check off", writer_drops_and_no_readback),
         ("seed 2: negative cold area refused for solids only (fluid bond between overlapping solids)", lambda: P(Component, "_checkNegativeArea", negative_area_only_for_solids)),
         ("seed 5: adjustMassFrac zero-balance branch, assignments swapped", swapped_zero_balance_branch),
+        ("round 2, seed 2: block-level modification lists that are all zero or blank are dropped", lambda: source_mutant(
+            AB, "_createBlock", '"byBlock": {**self.materialModifications},',
+            '"byBlock": {k: v for k, v in self.materialModifications.items() if any(v)},')),
+        ("round 2, seed 3: getPinToDuctGap takes the first duct written, not the innermost", lambda: source_mutant(
+            blocksModule.HexBlock, "getPinToDuctGap", "ducts = sorted(self.getChildrenWithFlags(Flags.DUCT))",
+            "ducts = self.getChildrenWithFlags(Flags.DUCT)")),
+        ("round 2, seed 4: xs type upper-cased", lambda: source_mutant(
+            AB, "_createBlock", "xsType = self.xsTypes[axialIndex]", "xsType = str(self.xsTypes[axialIndex]).strip().upper()")),
+        ("round 2, seed 5: by-component lists filed under the component's name in the length check", lambda: source_mutant(
+            AB, "_checkParamConsistency", 'paramName = f"material modifications for {modName}"',
+            'paramName = f"material modifications for {id(comp)}"')),      # one entry per component: the last list wins
         ("block heights applied in reversed order", lambda: P(AB, "_createBlock", create_block_heights_reversed)),
         ("xs type list shifted by one block", lambda: P(AB, "_createBlock", create_block_xs_shifted)),
         ("list-length consistency check disabled", lambda: P(AB, "_checkParamConsistency", param_consistency_off)),
